@@ -376,7 +376,7 @@ fn fired_split(f: &BTreeMap<&'static str, u64>) -> (u64, u64, u64, u64) {
     let hard_w = g("write_err") + g("write_err_sticky") + g("enospc") + g("open_write_err") + g("write_after_sticky") + g("fsync_err");
     let soft_w = g("short_write") + g("write_eintr") + g("enospc_short") + g("open_eintr");
     let hard_r = g("read_err") + g("read_err_sticky") + g("open_read_err");
-    let soft_r = g("short_read") + g("read_eintr") + g("open_eintr");
+    let soft_r = g("short_read") + g("read_eintr") + g("open_eintr") + g("stat_size_lied");
     (hard_w, soft_w, hard_r, soft_r)
 }
 
@@ -995,6 +995,9 @@ fn draw_read_plan(p: &mut Prng, len: usize) -> Plan {
     }
     if p.chance(1, 25) {
         plan.open.insert(0, *p.pick(OPEN_R_ERRNOS));
+    }
+    if p.chance(1, 8) {
+        plan.stat_size = Some(*p.pick(&[0u64, 0, 1, 17, (len / 2) as u64, len as u64 + 64]));
     }
     plan
 }
@@ -1632,6 +1635,13 @@ fn run_sweep(base: &World, acc: &mut Acc) {
     for &e in OPEN_R_ERRNOS {
         let mut w = base.clone();
         w.import_plan.open.insert(0, e);
+        go(w, acc);
+    }
+    // the file's reported size is wrong (a pipe, a file still being appended to): transparent to
+    // a reader that reads until end-of-file
+    for lie in [0u64, 1, (bytes.len() / 2) as u64, bytes.len() as u64 + 100] {
+        let mut w = base.clone();
+        w.import_plan.stat_size = Some(lie);
         go(w, acc);
     }
     // interrupted opens are retried by std: transparent on both sides
